@@ -25,6 +25,7 @@ var errDropAllowed = map[string]string{
 	"index.(*Domain).backwardStamp$1 -> EndWith": "span.EndWith echoes the caller's own error",
 	"pledge.(*responsible).propose$1 -> EndWith": "span.EndWith echoes the caller's own error",
 	"pledge.(*juror).verdict$1 -> EndWith":       "span.EndWith echoes the caller's own error",
+	"alamos.Middleware$1 -> EndWith":             "span.EndWith echoes the caller's own error",
 	// boolean command results: the error is retrievable through Error()
 	"cesium.(*Iterator).Valid -> execErr":                   "Valid reports a boolean; the error stays retrievable through Error()",
 	"cesium.(*Iterator).exec -> execErr":                    "exec reports a boolean; the error stays retrievable through Error()",
@@ -254,6 +255,7 @@ func checkErrDrop(r *Run, p *Prog, rule string, scope func(*FuncNode) bool, min 
 	if total < min {
 		r.Undecide("%s: only %d call statements examined (expected >= %d)", rule, total, min)
 	}
+	checkErrFlow(r, p, rule, scope, min/20)
 }
 
 // errDropExcludedCallee: callees whose error result is conventionally meaningless
